@@ -215,7 +215,7 @@ def big_config(blk, rng):
         if blk.name == 'BinaryToBCD':
             W['wr'] = 4 * rng.randint(1, 40)
         if blk.name == 'CountLeadingZeros':
-            W['wa'] = rng.choice(CLZ_W_HEAVY if HEAVY else CLZ_W); W['wr'] = max(rng.choice([1, 2, 3, 5, 8]), (W['wa'] - 1).bit_length() + rng.choice([0, 0, 1, 3]))
+            W['wa'] = rng.choice(CLZ_W_HEAVY if (HEAVY and rng.random() < 0.25) else CLZ_W); W['wr'] = max(rng.choice([1, 2, 3, 5, 8]), (W['wa'] - 1).bit_length() + rng.choice([0, 0, 1, 3]))
         if rng.random() < 0.35:
             W['wb'] = W['wa'] if 'Shift' not in blk.name and 'Rotate' not in blk.name else W['wb']
             W['wr'] = W['wa']
